@@ -470,3 +470,769 @@ Proof.
     specialize (Hb y (or_introl eq_refl)). unfold n_end in *. lia.
   - intros ->. rewrite app_nil_r. exact Hea.
 Qed.
+
+(* ---------- appendNode of a fresh (empty) node ---------- *)
+Lemma appendNode_fresh t hi c cur : wf_from 0 (inorder t) ->
+  exists t' a b,
+    appendNode (mkHdr t hi c) (mkNode cur 0%N []) = (mkHdr t' hi (c + 1)%N, true) /\
+    inorder t = a ++ b /\ inorder t' = a ++ mkNode cur 0%N [] :: b /\
+    (forall y, In y a -> n_off y <= cur) /\ (forall y, In y b -> cur < n_off y).
+Proof.
+  intros W. unfold appendNode. cbn [h_nodes h_hi h_count n_off].
+  set (v := mkNode cur 0%N []). set (cmp := node_compare cur (n_end v)).
+  destruct (sp_insert cmp v t) as [t' dup] eqn:E.
+  destruct dup as [old|].
+  - exfalso. destruct (sp_insert_found cmp v t t' old E) as (_ & Hz & _).
+    apply node_compare_zero in Hz. unfold meets, n_end, n_len in Hz. cbn [n_off n_length v] in Hz. lia.
+  - destruct (sp_insert_new cmp v t t' (wf_mono _ _ _ _ W) E) as (a & b & H1 & H2 & Fa & Fb).
+    exists t', a, b. split; [reflexivity|]. split; [exact H1|]. split; [exact H2|].
+    rewrite Forall_forall in Fa, Fb. split; intros y Hy.
+    + specialize (Fa y Hy). apply node_compare_pos in Fa. apply Fa.
+    + specialize (Fb y Hy). apply node_compare_neg in Fb. apply Fb.
+Qed.
+
+Lemma inv_empty_tree h : Inv h -> (h_count h =? 0)%N = true -> h_nodes h = Leaf.
+Proof.
+  intros (_ & Hc & _) E. apply inorder_nil, lenN_nil. lia.
+Qed.
+
+Lemma inv_nonempty h : Inv h -> (h_count h =? 0)%N = false -> inorder (h_nodes h) <> [].
+Proof. intros (_ & Hc & _) E Hn. rewrite Hn in Hc. cbn [lenN] in Hc. lia. Qed.
+
+(* one iteration of the loop of mem_hdr::write *)
+Lemma write_iter h cur src : Inv h -> 0 <= cur -> src <> [] ->
+  clear (inorder (h_nodes h)) cur (cur + Z.of_N (lenN src)) ->
+  exists h1 target h2 wrote,
+    nodeToRecieve h cur = Ok (h1, target) /\ writeAvailable h1 target cur src = Ok (h2, wrote) /\
+    (0 < wrote <= lenN src)%N /\ Inv h2 /\
+    (forall z, cont h2 z = spec_write (cont h) cur (takeN wrote src) z).
+Proof.
+  intros HI Hcur Hsrc C. pose proof HI as (W & Hcnt & Hhi).
+  assert (Hls : (0 < lenN src)%N) by (destruct src; [congruence| cbn [lenN]; lia]).
+  pose proof page_pos as Hpage. unfold PAGE in Hpage.
+  (* the "new node" path, for any tree t1 with the same in-order sequence *)
+  assert (Fresh : forall t1, inorder t1 = inorder (h_nodes h) ->
+    exists h2' v, appendNode (with_nodes h t1) (mkNode cur 0%N []) = (h2', true) /\ v = mkNode cur 0%N [] /\
+      (inorder (h_nodes h) = [] -> leftmost (h_nodes h2') = Some v) /\
+      exists h2 wrote, writeAvailable h2' v cur src = Ok (h2, wrote) /\
+        (0 < wrote <= lenN src)%N /\ Inv h2 /\
+        (forall z, cont h2 z = spec_write (cont h) cur (takeN wrote src) z)).
+  { intros t1 Hi1. unfold with_nodes.
+    destruct (appendNode_fresh t1 (h_hi h) (h_count h) cur ltac:(rewrite Hi1; exact W))
+      as (t' & a & b & Ea & Hab & Hi' & Ha & Hb).
+    rewrite Hi1 in Hab.
+    exists (mkHdr t' (h_hi h) (h_count h + 1)%N), (mkNode cur 0%N []).
+    split; [exact Ea|]. split; [reflexivity|].
+    split.
+    { intros Hnil. rewrite Hnil in Hab. destruct a; [|discriminate]. cbn [app] in Hab. subst b.
+      rewrite leftmost_hd. cbn [h_nodes]. rewrite Hi'. reflexivity. }
+    set (k := N.min (lenN src) sm_page_size).
+    assert (Hk : (0 < k <= lenN src)%N /\ (k <= sm_page_size)%N) by (unfold k; lia).
+    rewrite Hab in W, C.
+    destruct (insert_node a b cur k src W Hcur ltac:(lia) ltac:(lia) ltac:(lia) Ha Hb C)
+      as (W' & Hcont & Hane & Hbne & Hbe).
+    unfold writeAvailable, canAccept, n_space, n_end, n_len. cbn [n_off n_length n_data h_nodes h_hi h_count].
+    replace (cur =? cur + Z.of_N 0) with true by lia.
+    replace ((0 <? sm_page_size - 0)%N) with true by lia. cbn [negb andb app].
+    replace (N.min (lenN src) (sm_page_size - 0)) with k by (unfold k; lia).
+    replace (0 + k)%N with k by lia.
+    eexists _, k. split; [reflexivity|]. split; [lia|].
+    assert (Hi2 : inorder (set_node (mkNode cur k (takeN k src)) t') = a ++ mkNode cur k (takeN k src) :: b).
+    { apply set_node_split with (x := mkNode cur 0%N []); [exact Hi'| reflexivity| |].
+      - intros y Hy. cbn [n_off]. apply Hane, Hy.
+      - intros y Hy. cbn [n_off]. specialize (Hb y Hy). lia. }
+    split.
+    - unfold Inv. cbn [h_nodes h_count h_hi]. rewrite Hi2. split; [exact W'|]. split.
+      + rewrite Hcnt, Hab, !lenN_app. cbn [lenN]. lia.
+      + rewrite end_from_app. cbn [end_from]. change (n_end (mkNode cur k (takeN k src))) with (cur + Z.of_N k).
+        rewrite Hhi, Hab. destruct b as [|y b].
+        * specialize (Hbe eq_refl). cbn [end_from]. replace (end_from 0 (a ++ []) <=? cur) with true by lia. reflexivity.
+        * specialize (Hbne ltac:(discriminate)). replace (end_from 0 (a ++ y :: b) <=? cur) with false by lia.
+          rewrite end_from_app. reflexivity.
+    - intros z. unfold cont. cbn [h_nodes]. rewrite Hi2, Hab. apply Hcont. }
+  unfold nodeToRecieve.
+  destruct (h_count h =? 0)%N eqn:Ec.
+  - (* case 1: nothing in memory *)
+    pose proof (inv_empty_tree h HI Ec) as Ht.
+    destruct (Fresh (h_nodes h) eq_refl) as (h2' & v & Ea & -> & Hl & h2 & wrote & Ew & Hw & HI2 & Hc2).
+    replace (with_nodes h (h_nodes h)) with h in Ea by (destruct h; reflexivity).
+    rewrite Ea. rewrite Hl by (rewrite Ht; reflexivity).
+    exists h2', (mkNode cur 0%N []), h2, wrote. auto.
+  - (* case 2 *)
+    destruct (if cur >? 0 then sp_find (node_compare (cur - 1) cur) (h_nodes h) else (h_nodes h, None))
+      as [t1 cand] eqn:Ef.
+    assert (Hf : inorder t1 = inorder (h_nodes h) /\
+                 match cand with Some c => In c (inorder (h_nodes h)) /\ inside c (cur - 1) | None => True end).
+    { destruct (cur >? 0).
+      - destruct (find_spec _ _ _ _ _ _ W Ef) as (H1 & H2). split; [exact H1|].
+        destruct cand as [c|]; [|exact I]. destruct H2 as (H2 & H3). split; [exact H2|].
+        apply meets_point. replace (cur - 1 + 1) with cur by lia. exact H3.
+      - inversion Ef; subst. split; [reflexivity| exact I]. }
+    destruct Hf as (Hi1 & Hcand).
+    destruct (Fresh t1 Hi1) as (h2' & v & Ea & -> & _ & h2 & wrote & Ew & Hw & HI2 & Hc2).
+    rewrite Ea.
+    destruct cand as [c|]; [|exists h2', (mkNode cur 0%N []), h2, wrote; auto].
+    destruct (canAccept c cur) eqn:Eacc; [|exists h2', (mkNode cur 0%N []), h2, wrote; auto].
+    (* the candidate accepts: it ends at [cur] and has room *)
+    clear h2' h2 wrote Ea Ew Hw HI2 Hc2.
+    destruct Hcand as (Hin & Hins).
+    unfold canAccept in Eacc. apply andb_prop in Eacc. destruct Eacc as (Ee & Es).
+    assert (Hend : n_end c = cur) by lia.
+    destruct (in_split _ _ Hin) as (a & b & Hab).
+    rewrite Hab in W, C.
+    destruct (wf_from_split _ _ _ _ W) as (Sa & (Hcl & Hcp) & _ & Sb).
+    set (k := N.min (lenN src) (n_space c)).
+    assert (Hk : (0 < k <= lenN src)%N /\ (n_length c + k <= sm_page_size)%N) by (unfold k, n_space in *; lia).
+    destruct (grow_node a c b cur k src W Hend ltac:(lia) ltac:(lia) ltac:(lia) C) as (W' & Hcont & Hbne & Hend').
+    set (c' := mkNode (n_off c) (n_length c + k)%N (n_data c ++ takeN k src)).
+    fold c' in W', Hcont, Hend'.
+    assert (Ew : writeAvailable (with_nodes h t1) c cur src =
+                 Ok (mkHdr (set_node c' t1) (if h_hi h <=? cur then cur + Z.of_N k else h_hi h) (h_count h), k)).
+    { unfold writeAvailable, canAccept. unfold n_end in Hend |- *.
+      replace (cur =? n_off c + n_len c) with true by lia. rewrite Es. cbn [negb andb].
+      fold k. cbn [with_nodes h_nodes h_hi h_count]. reflexivity. }
+    exists (with_nodes h t1), c. eexists _, k. split; [reflexivity|]. split; [exact Ew|]. split; [lia|].
+    assert (Hi2 : inorder (set_node c' t1) = a ++ c' :: b).
+    { apply set_node_split with (x := c); [rewrite Hi1; exact Hab| reflexivity| |].
+      - intros y Hy. destruct (Sa y Hy) as (H1 & (_ & H2) & _). cbn [n_off c']. unfold n_end in *. lia.
+      - intros y Hy. destruct (Sb y Hy) as (H1 & (_ & H2)). cbn [n_off c']. unfold n_end, n_len in *. lia. }
+    split.
+    + unfold Inv. cbn [h_nodes h_count h_hi]. rewrite Hi2. split; [exact W'|]. split.
+      * rewrite Hcnt, Hab, !lenN_app. cbn [lenN]. reflexivity.
+      * rewrite end_from_app. cbn [end_from]. rewrite Hend'. rewrite Hhi, Hab.
+        destruct b as [|y b].
+        -- rewrite end_from_app. cbn [end_from]. replace (n_end c <=? cur) with true by lia. reflexivity.
+        -- specialize (Hbne ltac:(discriminate)). replace (end_from 0 (a ++ c :: y :: b) <=? cur) with false by lia.
+           rewrite end_from_app. reflexivity.
+    + intros z. unfold cont. cbn [h_nodes]. rewrite Hi2, Hab. apply Hcont.
+Qed.
+
+(* ---------- mem_hdr::write ---------- *)
+Lemma inv_with_nodes h t1 : inorder t1 = inorder (h_nodes h) -> Inv h ->
+  Inv (with_nodes h t1) /\ cont (with_nodes h t1) = cont h.
+Proof.
+  intros Hi (W & Hc & Hh). unfold Inv, cont, with_nodes. cbn [h_nodes h_hi h_count]. rewrite Hi. auto.
+Qed.
+
+Lemma spec_write_nil m off z : spec_write m off [] z = m z.
+Proof. unfold spec_write. cbn [lenN]. replace ((off <=? z) && (z <? off + Z.of_N 0)) with false by lia. reflexivity. Qed.
+
+Lemma spec_write_split m off src k z : (k <= lenN src)%N ->
+  spec_write (spec_write m off (takeN k src)) (off + Z.of_N k) (dropN k src) z = spec_write m off src z.
+Proof.
+  intros Hk. unfold spec_write. rewrite lenN_takeN, lenN_dropN.
+  replace (N.min k (lenN src)) with k by lia.
+  destruct ((off + Z.of_N k <=? z) && (z <? off + Z.of_N k + Z.of_N (lenN src - k))) eqn:E1.
+  - replace ((off <=? z) && (z <? off + Z.of_N (lenN src))) with true by lia.
+    rewrite nthN_dropN. f_equal. lia.
+  - destruct ((off <=? z) && (z <? off + Z.of_N k)) eqn:E2.
+    + replace ((off <=? z) && (z <? off + Z.of_N (lenN src))) with true by lia. apply nthN_takeN. lia.
+    + replace ((off <=? z) && (z <? off + Z.of_N (lenN src))) with false by lia. reflexivity.
+Qed.
+
+Lemma write_loop_ok fuel : forall h cur src, Inv h -> 0 <= cur -> (length src < fuel)%nat ->
+  clear (inorder (h_nodes h)) cur (cur + Z.of_N (lenN src)) ->
+  exists h', write_loop fuel h cur src = Ok h' /\ Inv h' /\ forall z, cont h' z = spec_write (cont h) cur src z.
+Proof.
+  induction fuel as [|f IH]; intros h cur src HI Hcur Hf C; [lia|].
+  destruct src as [|b0 src0] eqn:Esrc.
+  - exists h. split; [reflexivity|]. split; [exact HI|]. intros z. symmetry. apply spec_write_nil.
+  - rewrite <- Esrc in *. assert (Hne : src <> []) by (rewrite Esrc; discriminate).
+    destruct (write_iter h cur src HI Hcur Hne C) as (h1 & target & h2 & wrote & E1 & E2 & Hw & HI2 & Hc2).
+    cbn [write_loop]. rewrite Esrc. rewrite <- Esrc. rewrite E1, E2.
+    replace (wrote =? 0)%N with false by lia.
+    pose proof HI as (W & _). pose proof HI2 as (W2 & _).
+    assert (C2 : clear (inorder (h_nodes h2)) (cur + Z.of_N wrote) (cur + Z.of_N wrote + Z.of_N (lenN (dropN wrote src)))).
+    { apply (clear_iff _ _ _ _ W2). intros z Hz. rewrite lenN_dropN in Hz. fold (cont h2 z). rewrite Hc2.
+      unfold spec_write. rewrite lenN_takeN.
+      replace ((cur <=? z) && (z <? cur + Z.of_N (N.min wrote (lenN src)))) with false by lia.
+      apply (proj1 (clear_iff _ _ _ _ W) C). lia. }
+    destruct (IH h2 (cur + Z.of_N wrote) (dropN wrote src) HI2 ltac:(lia)) as (h' & E3 & HI3 & Hc3).
+    { assert (length (dropN wrote src) = N.to_nat (lenN src - wrote)) by (rewrite <- lenN_dropN; apply eq_sym, lenN_length_nat).
+      assert (length src = N.to_nat (lenN src)) by (apply eq_sym, lenN_length_nat). lia. }
+    { exact C2. }
+    exists h'. split; [exact E3|]. split; [exact HI3|].
+    intros z. rewrite Hc3. rewrite <- (spec_write_split (cont h) cur src wrote z) by lia.
+    unfold spec_write at 1 3. rewrite Hc2. reflexivity.
+Qed.
+
+Theorem mh_write_spec h off data : Inv h ->
+  match mh_write h off data with
+  | AssertFail => off < 0
+  | FatalDump => 0 <= off /\ exists z, off <= z < off + Z.of_N (lenN data) /\ cont h z <> None
+  | Ok h' => 0 <= off /\ (forall z, off <= z < off + Z.of_N (lenN data) -> cont h z = None) /\
+             Inv h' /\ forall z, cont h' z = spec_write (cont h) off data z
+  | Stuck => False
+  end.
+Proof.
+  intros HI. pose proof HI as (W & _). unfold mh_write.
+  destruct (off <? 0) eqn:E0; [lia|].
+  destruct (sp_find (node_compare off (off + Z.of_N (lenN data))) (h_nodes h)) as [t1 hit] eqn:Ef.
+  destruct (find_spec _ _ _ _ _ _ W Ef) as (Hi1 & Hhit).
+  destruct hit as [n|].
+  - destruct Hhit as (Hin & Hm). split; [lia|].
+    exists (Z.max off (n_off n)). split; [unfold meets in Hm; lia|].
+    apply (proj2 (content_present _ _ _ W)). exists n. split; [exact Hin|]. unfold meets, inside in *. lia.
+  - destruct (inv_with_nodes h t1 Hi1 HI) as (HI1 & Hc1).
+    assert (C : clear (inorder (h_nodes (with_nodes h t1))) off (off + Z.of_N (lenN data))).
+    { cbn [with_nodes h_nodes]. rewrite Hi1. exact Hhit. }
+    destruct (write_loop_ok (S (length data)) (with_nodes h t1) off data HI1 ltac:(lia) ltac:(lia) C) as (h' & E & HI' & Hc').
+    rewrite E. split; [lia|]. split.
+    + intros z Hz. apply (proj1 (clear_iff _ _ _ _ W) Hhit z Hz).
+    + split; [exact HI'|]. intros z. rewrite Hc', Hc1. reflexivity.
+Qed.
+
+(* ---------- getBlockContainingLocation ---------- *)
+Lemma getBlock_spec loc t : wf_from 0 (inorder t) -> 0 <= loc \/ t = Leaf ->
+  exists t' r, getBlock loc t = Ok (t', r) /\ inorder t' = inorder t /\
+    match r with
+    | Some n => In n (inorder t) /\ inside n loc
+    | None => content (inorder t) loc = None
+    end.
+Proof.
+  intros W Hloc. unfold getBlock, find_range. destruct t as [|l x r].
+  - exists Leaf, None. auto.
+  - destruct Hloc as [Hloc|Hloc]; [|discriminate]. replace (loc <? 0) with false by lia.
+    destruct (sp_find (node_compare loc (loc + 1)) (Node l x r)) as [t' res] eqn:Ef.
+    destruct (find_spec _ _ _ _ _ _ W Ef) as (Hi & Hr). exists t', res. split; [reflexivity|]. split; [exact Hi|].
+    destruct res as [n|].
+    + destruct Hr as (Hin & Hm). split; [exact Hin| apply meets_point, Hm].
+    + apply content_none. intros n Hn Hins. apply (Hr n Hn). apply meets_point, Hins.
+Qed.
+
+Lemma getBlock_negative loc t : t <> Leaf -> loc < 0 -> getBlock loc t = AssertFail.
+Proof. intros Ht Hl. unfold getBlock, find_range. destruct t; [congruence|]. replace (loc <? 0) with true by lia. reflexivity. Qed.
+
+(* ---------- read_spec ---------- *)
+Lemma read_spec_none m off n : m off = None -> read_spec m off n = [].
+Proof. intros H. destruct n; cbn [read_spec]; [reflexivity| rewrite H; reflexivity]. Qed.
+
+Lemma read_spec_chunk m chunk : forall loc n,
+  (forall i, (i < lenN chunk)%N -> m (loc + Z.of_N i) = nthN i chunk) -> (length chunk <= n)%nat ->
+  read_spec m loc n = chunk ++ read_spec m (loc + Z.of_N (lenN chunk)) (n - length chunk).
+Proof.
+  induction chunk as [|b chunk IH]; intros loc n H Hn.
+  - cbn [lenN app length]. replace (loc + Z.of_N 0) with loc by lia. replace (n - 0)%nat with n by lia. reflexivity.
+  - destruct n as [|n]; [cbn [length] in Hn; lia|]. cbn [read_spec].
+    pose proof (H 0%N ltac:(cbn [lenN]; lia)) as H0. cbn [nthN N.eqb] in H0. replace (loc + Z.of_N 0) with loc in H0 by lia.
+    rewrite H0. cbn [app length Nat.sub]. f_equal.
+    rewrite (IH (loc + 1) n).
+    + cbn [lenN]. f_equal. f_equal. lia.
+    + intros i Hi. specialize (H (N.succ i) ltac:(cbn [lenN]; lia)). cbn [nthN] in H.
+      replace (N.succ i =? 0)%N with false in H by lia. replace (N.pred (N.succ i)) with i in H by lia.
+      rewrite <- H. f_equal. lia.
+    + cbn [length] in Hn. lia.
+Qed.
+
+(* ---------- mem_hdr::copy ---------- *)
+Definition after (loc : Z) (l : list node) : nat := length (filter (fun n => loc <? n_end n) l).
+
+Lemma after_mono loc loc' l : loc <= loc' -> (after loc' l <= after loc l)%nat.
+Proof.
+  intros H. unfold after. induction l as [|x l IH]; cbn [filter length]; [lia|].
+  destruct (loc' <? n_end x) eqn:E1; destruct (loc <? n_end x) eqn:E2; cbn [length]; lia.
+Qed.
+
+Lemma after_lt loc loc' l n : In n l -> loc < n_end n -> n_end n <= loc' -> loc <= loc' ->
+  (after loc' l < after loc l)%nat.
+Proof.
+  intros Hin H1 H2 H3. induction l as [|x l IH]; [destruct Hin|].
+  unfold after in *. cbn [filter]. destruct Hin as [->|Hin].
+  - replace (loc' <? n_end n) with false by lia. replace (loc <? n_end n) with true by lia. cbn [length].
+    pose proof (after_mono loc loc' l H3). unfold after in *. lia.
+  - specialize (IH Hin). destruct (loc' <? n_end x) eqn:E1; destruct (loc <? n_end x) eqn:E2; cbn [length]; lia.
+Qed.
+
+Lemma after_le_length loc l : (after loc l <= length l)%nat.
+Proof. unfold after. induction l as [|x l IH]; cbn [filter length]; [lia|]. destruct (loc <? n_end x); cbn [length]; lia. Qed.
+
+Lemma copyAvailable_spec l n loc togo : wf_from 0 l -> In n l -> inside n loc -> (0 < togo)%N ->
+  exists chunk, copyAvailable n loc togo = Ok chunk /\
+    lenN chunk = N.min togo (Z.to_N (n_end n - loc)) /\ (0 < lenN chunk)%N /\
+    forall i, (i < lenN chunk)%N -> content l (loc + Z.of_N i) = nthN i chunk.
+Proof.
+  intros W Hin Hins Htg. destruct (wf_from_In _ _ _ W Hin) as (_ & (Hl & Hp) & _).
+  unfold copyAvailable. unfold inside in Hins.
+  replace (n_off n >? loc) with false by lia. replace (n_end n >? loc) with true by lia. cbn [negb].
+  set (co := Z.to_N (loc - n_off n)). set (k := N.min togo (n_length n - co)).
+  exists (takeN k (dropN co (n_data n))). split; [reflexivity|].
+  assert (Hlen : lenN (takeN k (dropN co (n_data n))) = k).
+  { rewrite lenN_takeN, lenN_dropN. unfold k. rewrite <- Hl. lia. }
+  rewrite Hlen. unfold n_end, n_len in *.
+  split; [unfold k, co; lia|]. split; [unfold k, co; lia|].
+  intros i Hi. rewrite (content_in _ _ n _ W Hin) by (unfold inside, n_end, n_len, k, co in *; lia).
+  rewrite nthN_takeN by exact Hi. rewrite nthN_dropN. f_equal. unfold co. lia.
+Qed.
+
+Lemma copy_loop_ok l : wf_from 0 l -> forall fuel t n togo loc acc,
+  inorder t = l -> In n l -> inside n loc -> (after loc l < fuel)%nat ->
+  exists t', copy_loop fuel t (Some n) togo loc acc = Ok (t', acc ++ read_spec (content l) loc (N.to_nat togo)) /\
+             inorder t' = l.
+Proof.
+  intros W. induction fuel as [|f IH]; intros t n togo loc acc Hi Hin Hins Hf; [lia|].
+  cbn [copy_loop]. destruct (togo =? 0)%N eqn:Etg.
+  - exists t. replace (N.to_nat togo) with O by lia. cbn [read_spec]. rewrite app_nil_r. auto.
+  - destruct (copyAvailable_spec l n loc togo W Hin Hins ltac:(lia)) as (chunk & Ec & Hlen & Hpos & Hbytes).
+    rewrite Ec. replace (lenN chunk =? 0)%N with false by lia.
+    set (loc' := loc + Z.of_N (lenN chunk)).
+    assert (Hloc : 0 <= loc').
+    { destruct (wf_from_In _ _ _ W Hin) as (H0 & _). unfold inside in Hins. unfold loc'. lia. }
+    destruct (getBlock_spec loc' t ltac:(rewrite Hi; exact W) (or_introl Hloc)) as (t' & p' & Eg & Hi' & Hp').
+    rewrite Eg. rewrite Hi in Hi', Hp'.
+    assert (Hsplit : read_spec (content l) loc (N.to_nat togo) =
+                     chunk ++ read_spec (content l) loc' (N.to_nat togo - length chunk)).
+    { apply read_spec_chunk; [exact Hbytes|]. rewrite <- lenN_length_nat. lia. }
+    rewrite Hsplit, app_assoc.
+    replace (N.to_nat togo - length chunk)%nat with (N.to_nat (togo - lenN chunk)) by (rewrite <- lenN_length_nat; lia).
+    destruct p' as [n'|].
+    + destruct Hp' as (Hin' & Hins').
+      destruct (togo - lenN chunk =? 0)%N eqn:Erest.
+      * exists t'. destruct f; cbn [copy_loop]; rewrite Erest;
+          (replace (N.to_nat (togo - lenN chunk)) with O by lia); cbn [read_spec]; rewrite app_nil_r; auto.
+      * apply IH; try assumption.
+        assert (n_end n <= loc') by (unfold loc'; unfold inside in Hins; lia).
+        assert (after loc' l < after loc l)%nat
+          by (apply (after_lt loc loc' l n Hin); unfold inside in Hins; unfold loc'; lia).
+        lia.
+    + exists t'. rewrite (read_spec_none _ _ _ Hp'), app_nil_r.
+      destruct f; cbn [copy_loop]; auto.
+Qed.
+
+Theorem mh_copy_spec h off len : Inv h ->
+  match mh_copy h off len with
+  | AssertFail => len = 0%N \/ inorder (h_nodes h) = [] \/ off < 0
+  | FatalDump => (0 < len)%N /\ 0 <= off /\ inorder (h_nodes h) <> [] /\ cont h off = None
+  | Ok (h', got) => (0 < len)%N /\ cont h off <> None /\
+                    got = read_spec (cont h) off (N.to_nat len) /\
+                    Inv h' /\ forall z, cont h' z = cont h z
+  | Stuck => False
+  end.
+Proof.
+  intros HI. pose proof HI as (W & Hcnt & _). unfold mh_copy.
+  destruct (off + Z.of_N len >? off) eqn:E0; cbn [negb]; [|left; lia].
+  destruct (h_count h =? 0)%N eqn:Ec.
+  - right. left. rewrite (inv_empty_tree h HI Ec). reflexivity.
+  - pose proof (inv_nonempty h HI Ec) as Hne.
+    destruct (Z.ltb_spec off 0) as [Hneg|Hpos].
+    + rewrite getBlock_negative; [right; right; exact Hneg| | exact Hneg].
+      intros Ht. apply Hne. rewrite Ht. reflexivity.
+    + destruct (getBlock_spec off (h_nodes h) W (or_introl Hpos)) as (t1 & p & Eg & Hi1 & Hp). rewrite Eg.
+      destruct p as [n|].
+      * destruct Hp as (Hin & Hins).
+        destruct (copy_loop_ok _ W (S (tree_size t1)) t1 n len off [] Hi1 Hin Hins) as (t2 & El & Hi2).
+        { pose proof (after_le_length off (inorder (h_nodes h))). rewrite <- inorder_length, Hi1. lia. }
+        rewrite El. cbn [app]. split; [lia|]. split.
+        { apply (proj2 (content_present _ _ _ W)). exists n. auto. }
+        split; [reflexivity|].
+        destruct (inv_with_nodes h t2 Hi2 HI) as (HI2 & Hc2). split; [exact HI2|]. intros z. rewrite Hc2. reflexivity.
+      * split; [lia|]. split; [exact Hpos|]. split; [exact Hne| exact Hp].
+Qed.
+
+(* ---------- mem_hdr::hasContigousContentRange ---------- *)
+Lemma after_pos loc l n : In n l -> loc < n_end n -> (1 <= after loc l)%nat.
+Proof. intros Hin H. pose proof (after_lt loc (n_end n) l n Hin H ltac:(lia) ltac:(lia)). lia. Qed.
+
+Lemma contig_loop_ok l : wf_from 0 l -> forall fuel t cur a b,
+  inorder t = l -> 0 <= cur \/ l = [] -> a <= cur -> (a < b -> cur < b) ->
+  (forall z, a <= z < cur -> content l z <> None) -> (after cur l <= fuel)%nat ->
+  exists t' r, contig_loop fuel t cur a b = Ok (t', r) /\ inorder t' = l /\
+    (r = true <-> forall z, a <= z < b -> content l z <> None).
+Proof.
+  intros W. induction fuel as [|f IH]; intros t cur a b Hi Hcur Ha Hb Hpre Hf.
+  - (* the last permitted iteration: it cannot continue *)
+    assert (Hloc : 0 <= cur \/ t = Leaf).
+    { destruct Hcur as [H|H]; [left; exact H| right; apply inorder_nil; rewrite Hi; exact H]. }
+    destruct (getBlock_spec cur t ltac:(rewrite Hi; exact W) Hloc) as (t' & p & Eg & Hi' & Hp).
+    cbn [contig_loop]. rewrite Eg. rewrite Hi in Hi', Hp. destruct p as [n|].
+    + destruct Hp as (Hin & Hins). unfold inside in Hins. pose proof (after_pos cur l n Hin ltac:(lia)). lia.
+    + exists t', (range_size a b =? 0). split; [reflexivity|]. split; [exact Hi'|].
+      unfold range_size. destruct (b >? a) eqn:Eab.
+      * split; [lia|]. intros H. exfalso. apply (H cur); [lia| exact Hp].
+      * split; [|reflexivity]. intros _ z Hz. lia.
+  - assert (Hloc : 0 <= cur \/ t = Leaf).
+    { destruct Hcur as [H|H]; [left; exact H| right; apply inorder_nil; rewrite Hi; exact H]. }
+    destruct (getBlock_spec cur t ltac:(rewrite Hi; exact W) Hloc) as (t' & p & Eg & Hi' & Hp).
+    cbn [contig_loop]. rewrite Eg. rewrite Hi in Hi', Hp. destruct p as [n|].
+    + destruct Hp as (Hin & Hins).
+      assert (Hcov : forall z, a <= z < n_end n -> content l z <> None).
+      { intros z Hz. destruct (Z.ltb_spec z cur) as [Hlt|Hge]; [apply Hpre; lia|].
+        apply (proj2 (content_present _ _ _ W)). exists n. split; [exact Hin|]. unfold inside in *. lia. }
+      destruct (n_end n >=? b) eqn:Edone.
+      * exists t', true. split; [reflexivity|]. split; [exact Hi'|]. split; [|reflexivity].
+        intros _ z Hz. apply Hcov. lia.
+      * unfold inside in Hins.
+        assert (Hn0 : 0 <= n_end n) by (destruct (wf_from_In _ _ _ W Hin) as (H0 & _); lia).
+        apply (IH t' (n_end n) a b Hi' (or_introl Hn0)); [lia| lia| exact Hcov|].
+        pose proof (after_lt cur (n_end n) l n Hin ltac:(lia) ltac:(lia) ltac:(lia)). lia.
+    + exists t', (range_size a b =? 0). split; [reflexivity|]. split; [exact Hi'|].
+      unfold range_size. destruct (b >? a) eqn:Eab.
+      * split; [lia|]. intros H. exfalso. apply (H cur); [lia| exact Hp].
+      * split; [|reflexivity]. intros _ z Hz. lia.
+Qed.
+
+Theorem mh_hasContig_spec h a b : Inv h ->
+  match mh_hasContig h a b with
+  | AssertFail => a < 0 /\ inorder (h_nodes h) <> []
+  | Ok (h', r) => (0 <= a \/ inorder (h_nodes h) = []) /\
+                  (r = true <-> forall z, a <= z < b -> cont h z <> None) /\
+                  Inv h' /\ forall z, cont h' z = cont h z
+  | FatalDump => False
+  | Stuck => False
+  end.
+Proof.
+  intros HI. pose proof HI as (W & _). unfold mh_hasContig.
+  destruct (Z.ltb_spec a 0) as [Hneg|Hpos]; [destruct (inorder (h_nodes h)) as [|x q] eqn:El|].
+  - (* negative start, empty object *)
+    destruct (contig_loop_ok _ W (S (tree_size (h_nodes h))) (h_nodes h) a a b El
+                (or_intror eq_refl) ltac:(lia) ltac:(lia) ltac:(intros; lia) ltac:(cbn; lia)) as (t' & r & E & Hi' & Hr).
+    rewrite E. split; [right; reflexivity|]. split; [unfold cont; rewrite El; exact Hr|].
+    destruct (inv_with_nodes h t' ltac:(rewrite Hi', El; reflexivity) HI) as (HI' & Hc'). split; [exact HI'|].
+    intros z. rewrite Hc'. reflexivity.
+  - (* negative start, stored nodes: mem_node::start() asserts *)
+    cbn [contig_loop]. rewrite getBlock_negative; [split; [exact Hneg| discriminate]| | exact Hneg].
+    intros Ht. rewrite Ht in El. discriminate.
+  - destruct (contig_loop_ok _ W (S (tree_size (h_nodes h))) (h_nodes h) a a b eq_refl
+                (or_introl Hpos) ltac:(lia) ltac:(lia) ltac:(intros; lia)) as (t' & r & E & Hi' & Hr).
+    { pose proof (after_le_length a (inorder (h_nodes h))). rewrite <- inorder_length. lia. }
+    rewrite E. split; [left; exact Hpos|]. split; [exact Hr|].
+    destruct (inv_with_nodes h t' Hi' HI) as (HI' & Hc'). split; [exact HI'|].
+    intros z. rewrite Hc'. reflexivity.
+Qed.
+
+(* ---------- mem_hdr::endOffset / lowestOffset ---------- *)
+Lemma content_last lo l : wf_from lo l -> l <> [] -> content l (end_from lo l - 1) <> None.
+Proof.
+  revert lo. induction l as [|x r IH]; intros lo W Hne; [congruence|].
+  apply (proj2 (content_present _ _ _ W)). cbn [end_from].
+  destruct r as [|y r].
+  - exists x. split; [left; reflexivity|]. destruct W as (_ & (_ & Hp) & _). cbn [end_from]. unfold inside, n_end in *. lia.
+  - destruct W as (_ & _ & Wr).
+    destruct (proj1 (content_present _ _ _ Wr) (IH _ Wr ltac:(discriminate))) as (n & Hn & Hi).
+    exists n. split; [right; exact Hn| exact Hi].
+Qed.
+
+Theorem mh_endOffset_spec h : Inv h ->
+  exists e, mh_endOffset h = Ok e /\
+    (forall z, e <= z -> cont h z = None) /\
+    (inorder (h_nodes h) <> [] -> cont h (e - 1) <> None) /\
+    (inorder (h_nodes h) = [] -> e = 0).
+Proof.
+  intros (W & _ & Hhi). unfold mh_endOffset.
+  assert (E : match rightmost (h_nodes h) with Some n => n_end n | None => 0 end = end_from 0 (inorder (h_nodes h))).
+  { destruct (h_nodes h) as [|l x r] eqn:Et; [reflexivity|].
+    pose proof (rightmost_end 0 (Node l x r) ltac:(discriminate)) as H.
+    destruct (rightmost (Node l x r)); [exact H| destruct H]. }
+  rewrite E, Hhi, Z.eqb_refl. eexists. split; [reflexivity|]. split; [|split].
+  - intros z Hz. apply (content_beyond _ _ _ W Hz).
+  - intros Hne. apply (content_last _ _ W Hne).
+  - intros ->. reflexivity.
+Qed.
+
+Lemma lowest_spec l : wf_from 0 l ->
+  let lo := match hd_error l with Some n => n_off n | None => 0 end in
+  (forall z, z < lo -> content l z = None) /\ (l <> [] -> content l lo <> None) /\ (l = [] -> lo = 0).
+Proof.
+  intros W. destruct l as [|x r]; cbn [hd_error].
+  - split; [reflexivity|]. split; [congruence| reflexivity].
+  - split; [|split; [|discriminate]].
+    + intros z Hz. apply (content_below (n_off x)); [|exact Hz].
+      apply (wf_from_rehead _ _ _ W). lia.
+    + intros _. apply (proj2 (content_present _ _ _ W)). exists x. split; [left; reflexivity|].
+      destruct W as (_ & (_ & Hp) & _). unfold inside, n_end. lia.
+Qed.
+
+(* ---------- mem_hdr::freeDataUpto ---------- *)
+Lemma free_loop_unfold fuel h target : free_loop fuel h target =
+  match inorder (h_nodes h) with
+  | [] => Ok h
+  | [_] => Ok h
+  | s :: _ :: _ =>
+      if n_end s >? target then Ok h
+      else match fuel with
+           | O => Stuck
+           | S f =>
+               let '(t', removed) := sp_remove (node_compare (n_off s) (n_end s)) (h_nodes h) in
+               if removed then free_loop f (mkHdr t' (h_hi h) (h_count h - 1)%N) target else Stuck
+           end
+  end.
+Proof.
+  pose proof (single_shape (h_nodes h)) as Hs. pose proof (leftmost_hd (h_nodes h)) as Hl.
+  destruct fuel as [|f]; cbn [free_loop];
+  (destruct (h_nodes h) as [|l x r] eqn:Et; [reflexivity|]);
+  (destruct l as [|ll lx lr]; [destruct r as [|rl rx rr]; [reflexivity|]|]);
+  rewrite Hl; (destruct (inorder _) as [|s [|s2 q]]; cbn [length] in Hs; try lia); reflexivity.
+Qed.
+
+Definition free_post (h : mem_hdr) (target : Z) (h' : mem_hdr) (d : list node) : Prop :=
+  Inv h' /\
+  inorder (h_nodes h) = d ++ inorder (h_nodes h') /\
+  (forall n, In n d -> n_end n <= target) /\
+  (inorder (h_nodes h) <> [] -> inorder (h_nodes h') <> []) /\
+  h_hi h' = h_hi h /\
+  match inorder (h_nodes h') with
+  | [] => True
+  | [_] => True
+  | x :: _ :: _ => target < n_end x
+  end.
+
+Lemma free_post_refl h target : Inv h ->
+  match inorder (h_nodes h) with [] => True | [_] => True | x :: _ :: _ => target < n_end x end ->
+  free_post h target h [].
+Proof.
+  intros HI Hm. unfold free_post. split; [exact HI|]. split; [reflexivity|]. split; [intros n []|].
+  split; [auto|]. split; [reflexivity| exact Hm].
+Qed.
+
+Lemma free_loop_ok fuel : forall h target, Inv h -> (length (inorder (h_nodes h)) <= fuel)%nat ->
+  exists h' d, free_loop fuel h target = Ok h' /\ free_post h target h' d.
+Proof.
+  induction fuel as [|f IH]; intros h target HI Hf; rewrite free_loop_unfold.
+  - pose proof (free_post_refl h target HI) as R.
+    destruct (inorder (h_nodes h)) as [|s [|s2 q]] eqn:El; cbn [length] in Hf; try lia;
+      exists h, []; (split; [reflexivity| apply R; exact I]).
+  - pose proof (free_post_refl h target HI) as R.
+    destruct (inorder (h_nodes h)) as [|s [|s2 q]] eqn:El;
+      [exists h, []; (split; [reflexivity| apply R; exact I]) .. |].
+    destruct (n_end s >? target) eqn:Et; [exists h, []; split; [reflexivity| apply R; lia]|]. clear R.
+    pose proof HI as (W & Hcnt & Hhi). rewrite El in W, Hcnt, Hhi.
+    pose proof (wf_from_later _ _ _ W) as Later.
+    destruct W as (W0 & (Hsl & Hsp) & Wr).
+    destruct (sp_remove_spec (node_compare (n_off s) (n_end s)) (h_nodes h) [] s (s2 :: q)) as (t' & Er & Hi').
+    { exact El. }
+    { apply node_compare_zero. unfold meets, n_end in *. lia. }
+    { constructor. }
+    { rewrite Forall_forall. intros y Hy. destruct (Later y Hy) as (H1 & (_ & H2)).
+      apply node_compare_neg. unfold meets, n_end in *. lia. }
+    rewrite Er. cbn [app] in Hi'.
+    set (h1 := mkHdr t' (h_hi h) (h_count h - 1)%N).
+    assert (HI1 : Inv h1).
+    { unfold Inv, h1. cbn [h_nodes h_hi h_count]. rewrite Hi'. split; [|split].
+      - apply (wf_from_weaken (n_end s)); [unfold n_end; lia| exact Wr].
+      - rewrite Hcnt. cbn [lenN]. lia.
+      - rewrite Hhi. cbn [end_from]. reflexivity. }
+    destruct (IH h1 target HI1) as (h' & d & E & HI' & Hd & Hdn & Hne & Hhi' & Hhead).
+    { unfold h1. cbn [h_nodes]. rewrite Hi'. cbn [length] in Hf |- *. lia. }
+    exists h', (s :: d). split; [exact E|]. unfold free_post. rewrite El.
+    split; [exact HI'|]. split; [|split; [|split; [|split]]].
+    + unfold h1 in Hd. cbn [h_nodes] in Hd. rewrite Hi' in Hd. cbn [app]. rewrite <- Hd. reflexivity.
+    + intros n [<-|Hn]; [lia| apply Hdn, Hn].
+    + intros _. apply Hne. unfold h1. cbn [h_nodes]. rewrite Hi'. discriminate.
+    + rewrite Hhi'. reflexivity.
+    + exact Hhead.
+Qed.
+
+Lemma content_suffix d l' z : wf_from 0 (d ++ l') ->
+  (forall b, content l' z = Some b -> content (d ++ l') z = Some b) /\
+  ((forall n, In n d -> ~ inside n z) -> content l' z = content (d ++ l') z).
+Proof.
+  intros W. pose proof W as W2. rewrite wf_from_app in W2. destruct W2 as (_ & Wl).
+  assert (Hsub : forall b, content l' z = Some b -> content (d ++ l') z = Some b).
+  { intros b Hb. destruct (content_some_in _ _ _ Hb) as (n & Hn & Hi & Hv).
+    rewrite (content_in _ _ n _ W); [exact Hv| apply in_or_app; right; exact Hn| exact Hi]. }
+  split; [exact Hsub|]. intros Hd.
+  destruct (content (d ++ l') z) as [b|] eqn:E.
+  - destruct (content_some_in _ _ _ E) as (n & Hn & Hi & Hv).
+    apply in_app_or in Hn. destruct Hn as [Hn|Hn]; [exfalso; exact (Hd n Hn Hi)|].
+    rewrite (content_in _ _ n _ Wl Hn Hi). exact Hv.
+  - destruct (content l' z) as [b|] eqn:E2; [|reflexivity]. discriminate (Hsub b eq_refl).
+Qed.
+
+Theorem mh_free_spec h target : Inv h ->
+  match mh_free h target with
+  | Ok (h', lo) =>
+      Inv h' /\
+      (* nothing at or above the target is released or changed *)
+      (forall z, target <= z -> cont h' z = cont h z) /\
+      (* what remains below is unchanged *)
+      (forall z b, cont h' z = Some b -> cont h z = Some b) /\
+      (* whole leading nodes ending at or below the target go; the last node stays *)
+      (exists d, inorder (h_nodes h) = d ++ inorder (h_nodes h') /\ forall n, In n d -> n_end n <= target) /\
+      (inorder (h_nodes h) <> [] -> inorder (h_nodes h') <> []) /\
+      h_hi h' = h_hi h /\
+      (* the answer is the lowest stored offset *)
+      (forall z, z < lo -> cont h' z = None) /\
+      (inorder (h_nodes h) <> [] -> cont h' lo <> None) /\
+      (inorder (h_nodes h) = [] -> lo = 0)
+  | AssertFail => False
+  | FatalDump => False
+  | Stuck => False
+  end.
+Proof.
+  intros HI. unfold mh_free.
+  destruct (free_loop_ok (S (tree_size (h_nodes h))) h target HI) as (h' & d & E & HI' & Hd & Hdn & Hne & Hhi & _).
+  { rewrite inorder_length. lia. }
+  rewrite E. pose proof HI as (W & _). pose proof HI' as (W' & _). rewrite Hd in W.
+  split; [exact HI'|]. split; [|split; [|split; [|split; [|split]]]].
+  - intros z Hz. unfold cont. rewrite Hd. apply (content_suffix d _ z W).
+    intros n Hn Hi. specialize (Hdn n Hn). unfold inside in Hi. lia.
+  - intros z b Hb. unfold cont in *. rewrite Hd. apply (content_suffix d _ z W), Hb.
+  - exists d. auto.
+  - exact Hne.
+  - exact Hhi.
+  - unfold mh_lowestOffset. rewrite leftmost_hd.
+    destruct (lowest_spec _ W') as (L1 & L2 & L3). split; [exact L1|]. split.
+    + intros Hn. apply L2, Hne, Hn.
+    + intros Hn. apply L3. rewrite Hn in Hd. destruct d; [|discriminate]. cbn [app] in Hd. symmetry. exact Hd.
+Qed.
+
+(* ---------- the specification of one operation on a partial map ---------- *)
+Definition stored (m : pmap) : Prop := exists z, m z <> None.
+Definition vacant (m : pmap) : Prop := forall z, m z = None.
+Definition same (m m' : pmap) : Prop := forall z, m' z = m z.
+
+(* [spec_step m o r m']: on the map m, operation o may answer r and leave m'.
+   The only freedom is in OFree (how much below the target is released). *)
+Definition spec_step (m : pmap) (o : op) (r : out) (m' : pmap) : Prop :=
+  match o, r with
+  | OWrite off data, RWrite =>
+      0 <= off /\ (forall z, off <= z < off + Z.of_N (lenN data) -> m z = None) /\
+      (forall z, m' z = spec_write m off data z)
+  | OWrite off data, RFatal =>
+      0 <= off /\ (exists z, off <= z < off + Z.of_N (lenN data) /\ m z <> None) /\ same m m'
+  | OWrite off data, RAssert => off < 0 /\ same m m'
+  | OFree target, RFree lo =>
+      (forall z, target <= z -> m' z = m z) /\
+      (forall z b, m' z = Some b -> m z = Some b) /\
+      (forall e, (forall z, e <= z -> m z = None) -> m (e - 1) <> None -> m' (e - 1) <> None) /\
+      (forall z, z < lo -> m' z = None) /\
+      (stored m -> m' lo <> None) /\
+      (vacant m -> lo = 0)
+  | OCopy off len, RCopy got =>
+      (0 < len)%N /\ m off <> None /\ got = read_spec m off (N.to_nat len) /\ same m m'
+  | OCopy off len, RFatal => (0 < len)%N /\ 0 <= off /\ stored m /\ m off = None /\ same m m'
+  | OCopy off len, RAssert => (len = 0%N \/ vacant m \/ off < 0) /\ same m m'
+  | OHas a b, RHas ans =>
+      (0 <= a \/ vacant m) /\ (ans = true <-> forall z, a <= z < b -> m z <> None) /\ same m m'
+  | OHas a b, RAssert => a < 0 /\ stored m /\ same m m'
+  | OEnd, REnd e =>
+      (forall z, e <= z -> m z = None) /\ (stored m -> m (e - 1) <> None) /\ (vacant m -> e = 0) /\ same m m'
+  | OLow, RLow lo =>
+      (forall z, z < lo -> m z = None) /\ (stored m -> m lo <> None) /\ (vacant m -> lo = 0) /\ same m m'
+  | _, _ => False
+  end.
+
+Inductive spec_trace : pmap -> list op -> list out -> pmap -> Prop :=
+| st_nil m : spec_trace m [] [] m
+| st_stop m o rest r m' : spec_step m o r m' -> abnormal r = true -> spec_trace m (o :: rest) [r] m'
+| st_cons m o rest r m1 rs m' : spec_step m o r m1 -> abnormal r = false ->
+    spec_trace m1 rest rs m' -> spec_trace m (o :: rest) (r :: rs) m'.
+
+(* ---------- stored <-> some node ---------- *)
+Lemma stored_iff h : Inv h -> (stored (cont h) <-> inorder (h_nodes h) <> []).
+Proof.
+  intros (W & _). unfold stored, cont. split.
+  - intros (z & Hz) Hn. rewrite Hn in Hz. apply Hz. reflexivity.
+  - intros Hne. exists (end_from 0 (inorder (h_nodes h)) - 1). apply (content_last _ _ W Hne).
+Qed.
+
+Lemma vacant_iff h : Inv h -> (vacant (cont h) <-> inorder (h_nodes h) = []).
+Proof.
+  intros HI. unfold vacant. split.
+  - intros Hv. destruct (inorder (h_nodes h)) as [|x q] eqn:E; [reflexivity|]. exfalso.
+    destruct (proj2 (stored_iff h HI)) as (z & Hz); [rewrite E; discriminate|]. apply Hz, Hv.
+  - intros Hn z. unfold cont. rewrite Hn. reflexivity.
+Qed.
+
+Lemma inv_empty : Inv mh_empty.
+Proof. unfold Inv, mh_empty. cbn. auto. Qed.
+
+Lemma cont_empty z : cont mh_empty z = None.
+Proof. reflexivity. Qed.
+
+(* ---------- every operation refines the specification ---------- *)
+Theorem step_refines h o : Inv h ->
+  Inv (fst (mh_step h o)) /\ spec_step (cont h) o (snd (mh_step h o)) (cont (fst (mh_step h o))).
+Proof.
+  intros HI. pose proof (stored_iff h HI) as Hst. pose proof (vacant_iff h HI) as Hva.
+  assert (Hsame : same (cont h) (cont h)) by (intros z; reflexivity).
+  destruct o as [off data|target|off len|a b| |]; unfold mh_step, lift.
+  - pose proof (mh_write_spec h off data HI) as H. destruct (mh_write h off data) as [h'| | |]; cbn [fst snd spec_step].
+    + destruct H as (H0 & H1 & HI' & Hc). auto.
+    + auto.
+    + destruct H as (H0 & H1). auto.
+    + destruct H.
+  - pose proof (mh_free_spec h target HI) as H. destruct (mh_free h target) as [[h' lo]| | |]; [|destruct H..].
+    cbn [fst snd spec_step].
+    destruct H as (HI' & H1 & H2 & (d & Hd & Hdn) & Hne & Hhi & L1 & L2 & L3).
+    split; [exact HI'|]. split; [exact H1|]. split; [exact H2|]. split; [|split; [exact L1|split]].
+    + intros e He1 He2.
+      assert (Hl : inorder (h_nodes h) <> []) by (apply Hst; exists (e - 1); exact He2).
+      pose proof HI as (W & _ & Hh). pose proof HI' as (W' & _ & Hh').
+      assert (Ee : e = h_hi h).
+      { pose proof (content_last _ _ W Hl) as Hlast. rewrite <- Hh in Hlast.
+        destruct (Z.lt_trichotomy e (h_hi h)) as [Hlt|[Heq|Hgt]]; [|exact Heq|].
+        - exfalso. apply Hlast. apply He1. lia.
+        - exfalso. apply He2. apply (content_beyond _ _ _ W). rewrite <- Hh. lia. }
+      subst e. rewrite <- Hhi, Hh'. apply (content_last _ _ W'). apply Hne, Hl.
+    + intros Hs. apply L2, Hst, Hs.
+    + intros Hv. apply L3, Hva, Hv.
+  - pose proof (mh_copy_spec h off len HI) as H. destruct (mh_copy h off len) as [[h' got]| | |]; cbn [fst snd spec_step].
+    + destruct H as (H0 & H1 & H2 & HI' & Hc). auto.
+    + split; [exact HI|]. split; [|exact Hsame]. destruct H as [H|[H|H]]; [left; exact H| right; left; apply Hva, H| right; right; exact H].
+    + destruct H as (H0 & H1 & H2 & H3). split; [exact HI|]. split; [exact H0|]. split; [exact H1|]. split; [apply Hst, H2|]. auto.
+    + destruct H.
+  - pose proof (mh_hasContig_spec h a b HI) as H. destruct (mh_hasContig h a b) as [[h' ans]| | |]; cbn [fst snd spec_step].
+    + destruct H as (H0 & H1 & HI' & Hc). split; [exact HI'|]. split; [|split; [exact H1| exact Hc]].
+      destruct H0 as [H0|H0]; [left; exact H0| right; apply Hva, H0].
+    + destruct H as (H0 & H1). split; [exact HI|]. split; [exact H0|]. split; [apply Hst, H1| exact Hsame].
+    + destruct H.
+    + destruct H.
+  - destruct (mh_endOffset_spec h HI) as (e & E & H1 & H2 & H3). rewrite E. cbn [fst snd spec_step].
+    split; [exact HI|]. split; [exact H1|]. split; [intros Hs; apply H2, Hst, Hs|]. split; [intros Hv; apply H3, Hva, Hv| exact Hsame].
+  - cbn [fst snd spec_step]. pose proof HI as (W & _).
+    unfold mh_lowestOffset. rewrite leftmost_hd. destruct (lowest_spec _ W) as (L1 & L2 & L3).
+    split; [exact HI|]. split; [exact L1|]. split; [intros Hs; apply L2, Hst, Hs|]. split; [intros Hv; apply L3, Hva, Hv| exact Hsame].
+Qed.
+
+(* ---------- all histories ---------- *)
+Theorem run_refines ops : forall h, Inv h ->
+  Inv (snd (mh_run h ops)) /\ spec_trace (cont h) ops (fst (mh_run h ops)) (cont (snd (mh_run h ops))).
+Proof.
+  induction ops as [|o rest IH]; intros h HI; cbn [mh_run].
+  - cbn [fst snd]. split; [exact HI| constructor].
+  - destruct (step_refines h o HI) as (HI1 & Hs). destruct (mh_step h o) as [h1 r]. cbn [fst snd] in HI1, Hs.
+    destruct (abnormal r) eqn:Ea.
+    + cbn [fst snd]. split; [exact HI1| apply st_stop; assumption].
+    + destruct (IH h1 HI1) as (HI2 & Ht). destruct (mh_run h1 rest) as [rs hf]. cbn [fst snd] in *.
+      split; [exact HI2| eapply st_cons; eassumption].
+Qed.
+
+Lemma spec_trace_never_stuck m ops outs m' : spec_trace m ops outs m' -> ~ In RStuck outs.
+Proof.
+  induction 1 as [m|m o rest r m' Hs Ha|m o rest r m1 rs m' Hs Ha Ht IH].
+  - intros [].
+  - intros [E|[]]. subst r. destruct o; exact Hs.
+  - intros [E|Hin]; [subst r; destruct o; exact Hs| exact (IH Hin)].
+Qed.
+
+Theorem histories_refine ops :
+  Inv (snd (mh_run mh_empty ops)) /\
+  spec_trace (fun _ => None) ops (fst (mh_run mh_empty ops)) (cont (snd (mh_run mh_empty ops))) /\
+  ~ In RStuck (fst (mh_run mh_empty ops)).
+Proof.
+  destruct (run_refines ops mh_empty inv_empty) as (HI & Ht). split; [exact HI|]. split; [exact Ht|].
+  exact (spec_trace_never_stuck _ _ _ _ Ht).
+Qed.
+
+(* the stored nodes of every reachable header: sorted, disjoint, 1..SM_PAGE_SIZE bytes, length field exact *)
+Theorem reachable_nodes_wf ops :
+  let h := snd (mh_run mh_empty ops) in
+  wf_from 0 (inorder (h_nodes h)) /\ h_count h = lenN (inorder (h_nodes h)) /\
+  h_hi h = end_from 0 (inorder (h_nodes h)).
+Proof. exact (proj1 (histories_refine ops)). Qed.
+
+(* ---------- the data[] array holds a full node ---------- *)
+Lemma data_capacity_ok : (sm_page_size <= mem_node_data_capacity)%N.
+Proof. unfold N.le. vm_compute. discriminate. Qed.
+
+Lemma page_size_positive : (0 < sm_page_size)%N.
+Proof. reflexivity. Qed.
+
+Theorem reachable_nodes_fit ops n :
+  In n (inorder (h_nodes (snd (mh_run mh_empty ops)))) ->
+  n_length n = lenN (n_data n) /\ (0 < n_length n <= mem_node_data_capacity)%N /\ 0 <= n_off n.
+Proof.
+  intros Hin. destruct (reachable_nodes_wf ops) as (W & _).
+  destruct (wf_from_In _ _ _ W Hin) as (H0 & (Hl & Hp) & _).
+  pose proof data_capacity_ok. unfold n_len, PAGE in Hp. split; [exact Hl|]. split; [lia| exact H0].
+Qed.
